@@ -176,7 +176,8 @@ def run(prog, chk):
                                     sides = an["c"][-2:] if an["k"] in ("BinaryOperator", "CXXOperatorCallExpr") and (an.get("op") or an.get("oop")) in ("==", "!=") else []
                                     if len(sides) == 2 and name in [q.no_casts(f.r(x)) for x in sides]:
                                         oth = [x for x in sides if q.no_casts(f.r(x)) != name]
-                                        if oth and re.search(r"&(this->|\w+\.)endItem\)*$", q.no_casts(q.xr(f, oth[0], defs))):
+                                        # `_end` is the iterator every constructor seats on `&endItem` and nothing re-seats: `X._end.item` is the sentinel
+                                        if oth and re.search(r"&(this->|\w+\.)endItem\)*$|(this->|\w+\.)_end(\.item)?\)*$", q.no_casts(q.xr(f, oth[0], defs))):
                                             guard = True
                             lock = f.short in ("operator==",)   # lock-step walk of two lists of equal _size (recognised idiom)
                             if guard or lock:
